@@ -497,7 +497,7 @@ func applyPush(ctx Context, doc bsonkit.Doc, name, path string, v interface{}) e
 
 	// no-op if neither the array contents nor its length changed (e.g. empty
 	// $each with no other modifiers): skip the change record entirely
-	if len(values) == 0 && !hasPosition && !hasSort && !hasSlice {
+	if len(values) == 0 && !hasPosition && !hasSort && !hasSlice && field != bsonkit.Missing {
 		return nil
 	}
 
@@ -506,6 +506,11 @@ func applyPush(ctx Context, doc bsonkit.Doc, name, path string, v interface{}) e
 	// pre-modifier behavior). Anything that can shift elements ($position not
 	// at end, $sort, $slice) records the whole array.
 	changes := ctx.Value.(*Changes)
+	if field == bsonkit.Missing {
+		// a newly created array is recorded as a whole as there is no array
+		// the element paths could be applied to
+		return changes.Record(path, newArr)
+	}
 	if !hasSort && !hasSlice && insertAt == len(arr) {
 		startIdx := insertAt
 		for i, val := range values {
